@@ -34,6 +34,8 @@ man = {
     "engines": [
         {"name": "extractor", "path": "extractor/", "serves_properties": [c["property_id"] for c in checks], "kind_free_text": "rustc_private driver dumping type-checked MIR with resolved callees, ADT tables and trait impls of the crate, per feature configuration"},
         {"name": "sa", "path": "sa/ + rules/", "serves_properties": [c["property_id"] for c in checks], "kind_free_text": "python analyses over the facts: CFG/dominators/cut-sets, def-use provenance, guard dominance, path-effect enumeration, lock analysis; one rule module per property"},
+        {"name": "stacksizes", "path": "sa/stacksizes.py", "serves_properties": ["C05"], "kind_free_text": "per-function stack frame sizes of the dev-profile build, read from the object file's .stack_sizes section (rustc -Zemit-stack-sizes + llvm-readobj); nothing is executed"},
+        {"name": "witness", "path": "witness/ + sa/witness.py", "serves_properties": sorted(set(p for ps in __import__("sa.witness", fromlist=["GROUPS"]).GROUPS.values() for p in ps)), "kind_free_text": "compile_fail,E0616 doc-test witnesses with compiling twins: invariant-carrying fields are unreachable from outside the crate (thorough tier)"},
     ],
     "checks": checks,
     "not_applicable": na,
